@@ -14,6 +14,9 @@
 #include "../c02_enc_o5m.hpp"
 
 #include <chrono>
+#include <csignal>
+#include <fcntl.h>
+#include <sys/stat.h>
 #include <thread>
 
 namespace {
@@ -54,6 +57,13 @@ std::vector<mdl::Obj> make_dataset(vh::Rng& rng, int fmt, size_t nruns, size_t m
             } else {
                 o.comments.clear();
                 o.num_comments = 0;
+            }
+            // now and then the first object of a run (= of a PBF block) is larger than the
+            // decoder's initial buffer: the buffer has to grow before anything was committed
+            if (i == 0 && type != mdl::CHANGESET && rng.chance(1, 4)) {
+                if (type == mdl::WAY) { o.nodes.clear(); for (int k = 0; k < 400; ++k) o.nodes.push_back(mdl::NodeRef{1000 + k, mdl::UNDEF, mdl::UNDEF}); }
+                else if (type == mdl::RELATION) { o.members.clear(); for (int k = 0; k < 60; ++k) o.members.push_back(mdl::Member{1 + k % 3, 2000 + k, std::string(static_cast<size_t>(40 + k), 'r')}); }
+                else { o.tags.clear(); for (int k = 0; k < 50; ++k) o.tags.push_back(mdl::Tag{"key" + std::to_string(k), std::string(static_cast<size_t>(30 + k), 'v')}); }
             }
             D.push_back(o);
         }
@@ -124,6 +134,9 @@ void case_read(uint64_t idx, vh::Rng& rng) {
     const unsigned mask = rng.chance(1, 3) ? 15U : static_cast<unsigned>(rng.below(16));
     const bool nometa = rng.chance(1, 4);
     const bool from_file = rng.coin();
+    // slow input: the bytes arrive through a FIFO whose feeder stalls once for longer than any
+    // internal timeout of the pipeline (not for PBF: a PBF file is read by the parser from a seekable fd)
+    const bool stall = fmt >= F_XML && from_file && rng.chance(1, 25);
     const int consumer = static_cast<int>(rng.below(3));   // 0 fast, 1 yields, 2 sleeps
     const uint32_t permille = rng.pick(std::vector<uint32_t>{0, 50, 300, 700});
     ::setenv("OSMIUM_MAX_INPUT_QUEUE_SIZE", std::to_string(inq).c_str(), 1);
@@ -133,7 +146,7 @@ void case_read(uint64_t idx, vh::Rng& rng) {
     vhk::hs().max_queue_depth = 0;
     const std::string cfg = vh::fmt("%s pool=%d workq=%zu inq=%d outq=%d pbf_pool=%d %s mask=%u %s %s consumer=%d perturb=%u",
                                     FMT_NAME[fmt], nthreads, workq, inq, outq, pbf_pool, single ? "single" : "any", mask, nometa ? "nometa" : "meta",
-                                    from_file ? "file" : "memory", consumer, permille);
+                                    stall ? "stalling-fifo" : from_file ? "file" : "memory", consumer, permille);
     vh::set_case_desc("%s objects=%zu bytes=%zu", cfg.c_str(), D.size(), bytes.size());
 
     std::vector<mdl::Obj> got;
@@ -144,7 +157,22 @@ void case_read(uint64_t idx, vh::Rng& rng) {
     {
         osmium::thread::Pool pool{nthreads, workq};
         const std::string path = g_dir + "/in." + fmt_suffix(fmt);
-        if (from_file) iou::spit(path, bytes);
+        std::thread feeder;
+        if (stall) {
+            ::unlink(path.c_str());
+            ::mkfifo(path.c_str(), 0600);
+            feeder = std::thread{[&bytes, path] {
+                const int fd = ::open(path.c_str(), O_WRONLY);
+                if (fd < 0) return;
+                const size_t half = bytes.size() / 2;
+                auto write_all = [fd](const char* p, size_t n) { while (n > 0) { const ssize_t w = ::write(fd, p, n); if (w <= 0) return false; p += w; n -= static_cast<size_t>(w); } return true; };
+                if (write_all(bytes.data(), half)) {
+                    std::this_thread::sleep_for(std::chrono::milliseconds(1300));
+                    write_all(bytes.data() + half, bytes.size() - half);
+                }
+                ::close(fd);
+            }};
+        } else if (from_file) iou::spit(path, bytes);
         try {
             // mask bit 0 node, 1 way, 2 relation, 3 changeset (osm_entity_bits::changeset is 0x10)
             const auto bits = static_cast<osmium::osm_entity_bits::type>((mask & 7U) | ((mask & 8U) ? 0x10U : 0U));
@@ -176,8 +204,10 @@ void case_read(uint64_t idx, vh::Rng& rng) {
         } catch (const std::exception& e) {
             err = e.what();
         }
+        if (feeder.joinable()) feeder.join();
         if (from_file) ::unlink(path.c_str());
     }
+    if (stall) vh::count("runs_with_stalling_input");
     if (!err.empty()) { vh::violation(std::string("Reader failed on a valid file: ") + FMT_NAME[fmt], cfg + " : " + err); return; }
     if (!eof_flag) vh::violation("eof() false after the end of data", cfg);
     if (!read_after_eof_ok) vh::violation("read() after the end of data neither failed nor returned an empty buffer", cfg);
@@ -233,6 +263,7 @@ void case_read(uint64_t idx, vh::Rng& rng) {
 int main(int argc, char** argv) {
     vh::parse_args(argc, argv);
     g_dir = iou::scratch_dir("c05");
+    ::signal(SIGPIPE, SIG_IGN);   // the FIFO feeder may outlive a Reader that stops early
     vh::info(vh::fmt("parser buffer size %s, PBF decoder buffer size %s (hook H4)",
 #ifdef OSMIUM_VERIF_PARSER_BUFFER_SIZE
                      std::to_string(OSMIUM_VERIF_PARSER_BUFFER_SIZE).c_str(),
